@@ -18,6 +18,7 @@ Vocabulary (Ymq/Lemmas/BerlekampMasseySpec.lean, BerlekampMasseyTop.lean):
 `Inv p n S st` (Ymq/Lemmas/BerlekampMasseyStep.lean): the loop invariant.
 -/
 import Ymq.Lemmas.BerlekampMasseySpec
+import Ymq.Lemmas.BerlekampMasseyMinimal
 import Ymq.Lemmas.BerlekampMasseyMg
 
 namespace Ymq.C19BM
@@ -190,6 +191,36 @@ theorem bm_no_panic_recurrence (p : ℕ) (hp : p.Prime) (hodd : p % 2 = 1) (hlt 
   · rw [h0, Nat.mod_eq_of_lt hp.one_lt]; omega
   · rw [hd j (by omega)]; simp
   · exact hrec i (by omega) hi2
+
+/-- Minimality (what `_detp4` / `ker_pbig` rely on when they read the coefficients as those of a
+characteristic polynomial): if the sequence satisfies a recurrence of order `L` with `2L ≤ n`,
+the returned vector has degree at most `L` and annihilates the sequence from index `L` on — not
+only on the window `n/2 ≤ i < n`. (It is `u` of the reduced fraction `f/u`: the proof shows
+`gcd(f, u) = 1` from the determinant `f·v - g·u = c·x^n` carried by the invariant.) -/
+theorem bm_minimal (p : ℕ) (hp : p.Prime) (hodd : p % 2 = 1) (hlt : p < 2 ^ 63)
+    (seq : List ℕ) (hr : ∀ x ∈ seq, x < p) (h2 : TwoTerms seq) (L : ℕ) (taps : List ℕ)
+    (hL : 2 * L ≤ seq.length) (h0 : taps.getD 0 0 % p ≠ 0)
+    (hd : ∀ j, L < j → taps.getD j 0 % p = 0)
+    (hrec : ∀ i, L ≤ i → i < seq.length → convAt taps seq i % p = 0)
+    (out : List ℕ) (h : bm p seq = some out) :
+    (∀ j, L < j → out.getD j 0 = 0) ∧
+      ∀ i, L ≤ i → i < seq.length → convAt out seq i % p = 0 := by
+  have := Fact.mk hp
+  obtain ⟨pinv, r2, ok, e⟩ := bm_montgomery_ops p hp hodd hlt seq
+  rw [e] at h
+  exact core_minimal_list ok seq hr h2 L taps hL h0 hd hrec out h
+
+/-- the same for `berlekamp_massey_big::<U256, U512>` -/
+theorem bm_big_minimal (p : ℕ) (hp : p.Prime) (hlt : p < 2 ^ 244)
+    (seq : List ℕ) (hr : ∀ x ∈ seq, x < p) (h2 : TwoTerms seq) (L : ℕ) (taps : List ℕ)
+    (hL : 2 * L ≤ seq.length) (h0 : taps.getD 0 0 % p ≠ 0)
+    (hd : ∀ j, L < j → taps.getD j 0 % p = 0)
+    (hrec : ∀ i, L ≤ i → i < seq.length → convAt taps seq i % p = 0)
+    (out : List ℕ) (h : bmBig p seq = some out) :
+    (∀ j, L < j → out.getD j 0 = 0) ∧
+      ∀ i, L ≤ i → i < seq.length → convAt out seq i % p = 0 := by
+  have := Fact.mk hp
+  exact core_minimal_list (bigOps_ok p hlt) seq hr h2 L taps hL h0 hd hrec out h
 
 /-- witness: the empty sequence -/
 theorem bm_panic_empty : bm 7 [] = none ∧ bmBig 7 [] = none := by decide +kernel
